@@ -279,11 +279,16 @@ func harnessC04SharedOptionValue() {
 	bus := New()
 	n := vInt(2, 3)
 	opts := []SubscribeOption{Once()}
-	switch vPick(3) {
+	rejectFirst := false
+	switch vPick(4) {
 	case 1:
 		opts = append(opts, Async())
 	case 2:
 		opts = append(opts, WithFilter(func(e evA) bool { return e.N > 0 }))
+	case 3:
+		// a reusable predicate typed on an interface the event satisfies; it rejects the first event
+		opts = append(opts, WithFilter(func(e any) bool { a, ok := e.(evA); return ok && a.N > 1 }))
+		rejectFirst = true
 	}
 	got := make([]int, n)
 	for i := 0; i < n; i++ {
@@ -293,6 +298,13 @@ func harnessC04SharedOptionValue() {
 	for p := 0; p < 2; p++ {
 		Publish(bus, evA{N: 1 + p})
 		bus.Wait()
+		if rejectFirst && p == 0 {
+			for i := 0; i < n; i++ {
+				vAssert(got[i] == 0, "filter-rejected-event-does-not-use-it-up")
+			}
+			vAssert(HandlerCount[evA](bus) == n, "once-counted-until-fired-only")
+			continue
+		}
 		for i := 0; i < n; i++ {
 			vAssert(got[i] == 1, "once-exactly-once-when-eligible")
 		}
